@@ -209,6 +209,13 @@ Definition ftr_stop (ro : Z) : bool :=
   (ro =? 0).
 
 (* source:
+   if read_size < LogFileDateSinceSeeker.SEEK_HORIZON:
+       return SearchState(status=FindTokenStatus.REACHED_EOF, offset=0)
+*)
+Definition ftr_clipped (rs : Z) (H : Z) : bool :=
+  (rs <? H).
+
+(* source:
    chunk = self.file.read(LogFileDateSinceSeeker.SEEK_HORIZON)
 *)
 Definition ft_read_size (H : Z) : Z :=
@@ -225,4 +232,11 @@ Definition ft_found (start : Z) (cur : Z) (i : Z) : Z :=
 *)
 Definition ft_next_cur (cur : Z) (n : Z) : Z :=
   (cur + n).
+
+(* source:
+   if len(chunk) < LogFileDateSinceSeeker.SEEK_HORIZON:
+       return SearchState(status=FindTokenStatus.REACHED_EOF, offset=len(self))
+*)
+Definition ft_short (n : Z) (H : Z) : bool :=
+  (n <? H).
 
